@@ -261,7 +261,7 @@ def strategy(tier):
 
 def units(tier, seed):
     n = 16 if tier == 'quick' else 32
-    per = 120 if tier == 'quick' else 4000
+    per = 120 if tier == 'quick' else 1500
     return [{'kind': 'random', 'n': per, 'seed': core.shard_seed(seed, ID, i)} for i in range(n)]
 
 
